@@ -148,7 +148,11 @@ func (s *optionsSc) Plan(w *World) {
 	for i := 0; i < 5; i++ {
 		hw := drawMAC(t, 6, i+1)
 		s.c4 = append(s.c4, &Client4{ID: i, MAC: hw, Link: 2, Bcast: true})
-		s.c6 = append(s.c6, newClient6(t, i, 2))
+		c6 := newClient6(t, i, 2)
+		if t.Draw(3) == 0 {
+			c6.Relays = drawRelays(t, t.Range(1, 3), c6) // option plugins look at the innermost message, whatever the nesting
+		}
+		s.c6 = append(s.c6, c6)
 	}
 	w.Sim.SetPoolReuse(int(t.Draw(3)))
 	n := t.Range(3, 24)
